@@ -279,3 +279,60 @@ func PathSet(ps []string) string {
 func structIDOf[T any]() int { return structID(reflect.TypeFor[T]()) }
 
 func sortStrings(xs []string) { sort.Strings(xs) }
+
+// Clone deep-copies a value (pointers, slices, maps, structs), so that a Parse that writes through
+// a caller's pointer (engine.validatePointer does: `*ptr = v`) cannot change what the next call sees.
+func Clone(x any) any {
+	if x == nil {
+		return nil
+	}
+	return cloneRV(reflect.ValueOf(x)).Interface()
+}
+
+func cloneRV(v reflect.Value) reflect.Value {
+	switch v.Kind() {
+	case reflect.Pointer:
+		if v.IsNil() {
+			return v
+		}
+		n := reflect.New(v.Type().Elem())
+		n.Elem().Set(cloneRV(v.Elem()))
+		return n
+	case reflect.Interface:
+		if v.IsNil() {
+			return v
+		}
+		r := reflect.New(v.Type()).Elem()
+		r.Set(cloneRV(v.Elem()))
+		return r
+	case reflect.Slice:
+		if v.IsNil() {
+			return v
+		}
+		n := reflect.MakeSlice(v.Type(), v.Len(), v.Len())
+		for i := range v.Len() {
+			n.Index(i).Set(cloneRV(v.Index(i)))
+		}
+		return n
+	case reflect.Map:
+		if v.IsNil() {
+			return v
+		}
+		n := reflect.MakeMapWithSize(v.Type(), v.Len())
+		it := v.MapRange()
+		for it.Next() {
+			n.SetMapIndex(it.Key(), cloneRV(it.Value()))
+		}
+		return n
+	case reflect.Struct:
+		n := reflect.New(v.Type()).Elem()
+		n.Set(v)
+		for i := range v.NumField() {
+			if v.Type().Field(i).IsExported() {
+				n.Field(i).Set(cloneRV(v.Field(i)))
+			}
+		}
+		return n
+	}
+	return v
+}
